@@ -4,6 +4,7 @@ C02: the lattice laws of the model operators, derived from the universal propert
 dtypes and for bool.
 -/
 import Mahotas.Proofs.C02
+import Mahotas.Proofs.C14
 namespace Mahotas.C02
 open Mahotas Mahotas.C01
 
@@ -228,6 +229,251 @@ theorem adjunction (F G : Img Int) (hshape : G.shape = F.shape) (hs : ∀ d ∈ 
     rw [ht] at hn
     exact (sc.adj kh hkh _ _ (hF i hi) hGj (by rw [sc.lo0]; exact hv) hn).mpr hE
 
+/-! ### opening and closing -/
+
+/-- no datum of the image sits at the dtype maximum (bool images: no condition) -/
+def HiClear (dt : DT) (G : Img Int) : Prop :=
+  ∀ j, j < shapeSize G.shape → dt.isBool = true ∨ G.data.getD j 0 < dt.hi
+
+theorem open_le (G : Img Int) (hs : ∀ d ∈ G.shape, 0 < d)
+    (hlen : ∀ kh ∈ sup, kh.1.length = G.shape.length) (hG : RangeImg dt G) (hc : HiClear dt G) :
+    LeImg (openModel dt G sup) G := by
+  have hE := range_erode dt sup sc G hs hlen hG
+  refine (adjunction dt sup sc (erodeImg dt G sup) G rfl hs hlen hE hG ?_).mpr (fun _ _ => Int.le_refl _)
+  intro i hi kh hkh
+  have ht : tgt G.shape i kh.1 < shapeSize G.shape := tgt_lt G.shape hs i hi kh.1 (hlen kh hkh)
+  rcases hc _ ht with h | h
+  · exact Or.inl h
+  · exact Or.inr (Or.inl h)
+
+theorem le_close (F : Img Int) (hs : ∀ d ∈ F.shape, 0 < d)
+    (hlen : ∀ kh ∈ sup, kh.1.length = F.shape.length) (hF : RangeImg dt F)
+    (hns : ∀ i, i < shapeSize F.shape → ∀ kh ∈ sup,
+      NoSat dt (F.data.getD i 0) ((dilateImg dt F sup).data.getD (tgt F.shape i kh.1) 0) kh.2) :
+    LeImg F (closeModel dt F sup) :=
+  (adjunction dt sup sc F (dilateImg dt F sup) rfl hs hlen hF (range_dilate dt sup sc F hs hF) hns).mp
+    (fun _ _ => Int.le_refl _)
+
+theorem noSat_of_hiClear (F G : Img Int) (hshape : G.shape = F.shape) (hs : ∀ d ∈ F.shape, 0 < d)
+    (hlen : ∀ kh ∈ sup, kh.1.length = F.shape.length) (hc : HiClear dt G) :
+    ∀ i, i < shapeSize F.shape → ∀ kh ∈ sup,
+      NoSat dt (F.data.getD i 0) (G.data.getD (tgt F.shape i kh.1) 0) kh.2 := by
+  intro i hi kh hkh
+  have ht := tgt_lt F.shape hs i hi kh.1 (hlen kh hkh)
+  rcases hc _ (by rw [hshape]; exact ht) with h | h
+  · exact Or.inl h
+  · exact Or.inr (Or.inl h)
+
+theorem hiClear_of_le (A B : Img Int) (hshape : A.shape = B.shape) (hle : LeImg A B) (hc : HiClear dt B) :
+    HiClear dt A := by
+  intro j hj
+  rcases hc j (by rw [← hshape]; exact hj) with h | h
+  · exact Or.inl h
+  · exact Or.inr (Int.lt_of_le_of_lt (hle j hj) h)
+
+theorem open_idem (G : Img Int) (hs : ∀ d ∈ G.shape, 0 < d)
+    (hlen : ∀ kh ∈ sup, kh.1.length = G.shape.length) (hG : RangeImg dt G) (hc : HiClear dt G) :
+    ∀ j, j < shapeSize G.shape →
+      (openModel dt (openModel dt G sup) sup).data.getD j 0 = (openModel dt G sup).data.getD j 0 := by
+  have hE := range_erode dt sup sc G hs hlen hG
+  have hO : RangeImg dt (openModel dt G sup) := range_dilate dt sup sc _ hs hE
+  have hle := open_le dt sup sc G hs hlen hG hc
+  have hcO : HiClear dt (openModel dt G sup) := hiClear_of_le dt sup sc _ G rfl hle hc
+  have h1 := open_le dt sup sc (openModel dt G sup) hs hlen hO hcO
+  -- ε G ≤ ε δ ε G, then δ is monotone
+  have h2 : LeImg (erodeImg dt G sup) (erodeImg dt (openModel dt G sup) sup) :=
+    le_close dt sup sc (erodeImg dt G sup) hs hlen hE
+      (noSat_of_hiClear dt sup sc (erodeImg dt G sup) (openModel dt G sup) rfl hs hlen hcO)
+  have h3 := dilate_mono dt sup sc (erodeImg dt G sup) (erodeImg dt (openModel dt G sup) sup) rfl hs hE
+    (range_erode dt sup sc _ hs hlen hO) h2
+  intro j hj
+  exact Int.le_antisymm (h1 j hj) (h3 j hj)
+
+theorem close_idem (F : Img Int) (hs : ∀ d ∈ F.shape, 0 < d)
+    (hlen : ∀ kh ∈ sup, kh.1.length = F.shape.length) (hF : RangeImg dt F)
+    (hc : HiClear dt (dilateImg dt F sup)) :
+    ∀ j, j < shapeSize F.shape →
+      (closeModel dt (closeModel dt F sup) sup).data.getD j 0 = (closeModel dt F sup).data.getD j 0 := by
+  have hD := range_dilate dt sup sc F hs hF
+  have hC : RangeImg dt (closeModel dt F sup) := range_erode dt sup sc _ hs hlen hD
+  -- δ ε δ F ≤ δ F, then ε is monotone
+  have h1 : LeImg (dilateImg dt (closeModel dt F sup) sup) (dilateImg dt F sup) :=
+    open_le dt sup sc (dilateImg dt F sup) hs hlen hD hc
+  have h2 := erode_mono dt sup sc (dilateImg dt (closeModel dt F sup) sup) (dilateImg dt F sup) rfl hs hlen
+    (range_dilate dt sup sc _ hs hC) hD h1
+  have hcc : HiClear dt (dilateImg dt (closeModel dt F sup) sup) := hiClear_of_le dt sup sc _ (dilateImg dt F sup) rfl h1 hc
+  have h3 : LeImg (closeModel dt F sup) (closeModel dt (closeModel dt F sup) sup) :=
+    le_close dt sup sc (closeModel dt F sup) hs hlen hC
+      (noSat_of_hiClear dt sup sc (closeModel dt F sup) _ rfl hs hlen hcc)
+  intro j hj
+  exact Int.le_antisymm (h2 j hj) (h3 j hj)
+
+theorem open_mono (G G' : Img Int) (hshape : G'.shape = G.shape) (hs : ∀ d ∈ G.shape, 0 < d)
+    (hlen : ∀ kh ∈ sup, kh.1.length = G.shape.length) (hG : RangeImg dt G) (hG' : RangeImg dt G')
+    (hle : LeImg G G') : LeImg (openModel dt G sup) (openModel dt G' sup) :=
+  dilate_mono dt sup sc _ _ hshape hs (range_erode dt sup sc G hs hlen hG)
+    (range_erode dt sup sc G' (by rw [hshape]; exact hs) (by rw [hshape]; exact hlen) hG')
+    (erode_mono dt sup sc G G' hshape hs hlen hG hG' hle)
+
+theorem close_mono (F F' : Img Int) (hshape : F'.shape = F.shape) (hs : ∀ d ∈ F.shape, 0 < d)
+    (hlen : ∀ kh ∈ sup, kh.1.length = F.shape.length) (hF : RangeImg dt F) (hF' : RangeImg dt F')
+    (hle : LeImg F F') : LeImg (closeModel dt F sup) (closeModel dt F' sup) :=
+  erode_mono dt sup sc _ _ hshape hs hlen (range_dilate dt sup sc F hs hF)
+    (range_dilate dt sup sc F' (by rw [hshape]; exact hs) hF')
+    (dilate_mono dt sup sc F F' hshape hs hF hF' hle)
+
 end laws
+
+/-! ### conditional operators, top-hats -/
+
+theorem map2_getD (op : Int → Int → Int) (A B : Img Int) (i : Nat) (hi : i < shapeSize A.shape) :
+    (map2 op A B).data.getD i 0 = op (A.data.getD i 0) (B.data.getD i 0) := by
+  have hi' : i < A.size := hi
+  simp [map2, Array.getD_eq_getD_getElem?, List.getElem?_map, List.getElem?_range hi']
+
+/-- the centre of the element is a member whose height neither raises an eroded value nor lowers
+    a dilated one (any height `≥ 0` other than the "absent" marker; for bool: a set entry) -/
+def CentreMember (dt : DT) (sup : List (List Int × Int)) : Prop :=
+  ∃ kh ∈ sup, C14.isZeroPos kh.1 = true ∧
+    (∀ a, dt.InRange a → erodeSub dt a kh.2 ≤ a) ∧
+    (∀ a, dt.InRange a → a ≠ dt.lo → a ≤ dilateAdd dt a kh.2)
+
+theorem centreMember_unsigned (dt : DT) (wf : dt.WF) (hlo : dt.lo = 0) (sup : List (List Int × Int))
+    (kh : List Int × Int) (hkh : kh ∈ sup) (hz : C14.isZeroPos kh.1 = true) (hr : dt.InRange kh.2)
+    (hne : kh.2 ≠ 0) : CentreMember dt sup := by
+  have h0 : 0 ≤ kh.2 := by have := hr.1; omega
+  refine ⟨kh, hkh, hz, fun a ha => ?_, fun a ha hna => ?_⟩
+  · rw [erodeSub_spec dt wf a kh.2 ha hr h0]
+    unfold DT.InRange DT.clamp at *
+    split <;> omega
+  · rw [dilateAdd_spec dt wf a kh.2 ha hr h0]
+    unfold DT.InRange DT.clamp at *
+    split <;> omega
+
+theorem centreMember_bool (sup : List (List Int × Int)) (kh : List Int × Int) (hkh : kh ∈ sup)
+    (hz : C14.isZeroPos kh.1 = true) (hne : kh.2 ≠ 0) : CentreMember dtBool sup := by
+  refine ⟨kh, hkh, hz, fun a ha => ?_, fun a ha _ => ?_⟩ <;>
+  · have : a = 0 ∨ a = 1 := by simp only [DT.InRange, dtBool] at ha; omega
+    first | unfold erodeSub | unfold dilateAdd
+    rcases this with rfl | rfl <;> simp [dtBool, hne]
+
+theorem tgt_zero (shape : List Nat) (i : Nat) (hi : i < shapeSize shape) (k : List Int)
+    (hz : C14.isZeroPos k = true) (hk : k.length = shape.length) : tgt shape i k = i := by
+  unfold tgt target
+  rw [C14.addPos_zero _ k hz (by rw [hk, unravelI_length]),
+    C14.clampPos_inside _ _ (inside_unravelI shape i hi), ravelI_unravelI shape i hi]
+
+section cond
+variable (dt : DT) (sup : List (List Int × Int)) (sc : Scalars dt sup) (cm : CentreMember dt sup)
+include sc cm
+
+omit sc in
+theorem erode_le_self (G : Img Int) (hs : ∀ d ∈ G.shape, 0 < d)
+    (hlen : ∀ kh ∈ sup, kh.1.length = G.shape.length) (hG : RangeImg dt G) :
+    LeImg (erodeImg dt G sup) G := by
+  obtain ⟨kh, hkh, hz, he, _⟩ := cm
+  intro i hi
+  have hi' : i < shapeSize G.shape := hi
+  have := ((le_erode_iff dt G sup hs hlen i hi' _).mp (Int.le_refl _)).2 kh hkh
+  rw [tgt_zero G.shape i hi' kh.1 hz (hlen kh hkh)] at this
+  exact Int.le_trans this (he _ (hG i hi'))
+
+theorem self_le_dilate (F : Img Int) (hs : ∀ d ∈ F.shape, 0 < d)
+    (hlen : ∀ kh ∈ sup, kh.1.length = F.shape.length) (hF : RangeImg dt F) :
+    LeImg F (dilateImg dt F sup) := by
+  obtain ⟨kh, hkh, hz, _, hd⟩ := cm
+  intro i hi
+  by_cases hv : F.data.getD i 0 = 0
+  · rw [hv]
+    have := (range_dilate dt sup sc F hs hF i hi).1
+    rw [sc.lo0] at this; exact this
+  · have := ((dilate_le_iff dt sc.lo0 F sup hs i hi _).mp (Int.le_refl _)).2 i hi hv kh hkh
+      (tgt_zero F.shape i hi kh.1 hz (hlen kh hkh))
+    exact Int.le_trans (hd _ (hF i hi) (by rw [sc.lo0]; exact hv)) this
+
+/-- `g ≤ cerode(f, g) ≤ max(f, g)` -/
+theorem cerode_bounds (f g : Img Int) (hshape : g.shape = f.shape) (hs : ∀ d ∈ f.shape, 0 < d)
+    (hlen : ∀ kh ∈ sup, kh.1.length = f.shape.length) (hf : RangeImg dt f) (hg : RangeImg dt g) :
+    ∀ i, i < shapeSize f.shape →
+      g.data.getD i 0 ≤ (cerodeModel dt f g sup).data.getD i 0 ∧
+      (cerodeModel dt f g sup).data.getD i 0 ≤ max (f.data.getD i 0) (g.data.getD i 0) := by
+  intro i hi
+  have hm : RangeImg dt (map2 max f g) := by
+    intro j hj
+    have hj' : j < shapeSize f.shape := hj
+    rw [map2_getD max f g j hj']
+    have h1 := hf j hj'; have h2 := hg j (by rw [hshape]; exact hj')
+    unfold DT.InRange at *; omega
+  have hle := erode_le_self dt sup cm (map2 max f g) hs hlen hm i hi
+  rw [map2_getD max f g i hi] at hle
+  unfold cerodeModel
+  rw [map2_getD max (erodeImg dt (map2 max f g) sup) g i hi]
+  omega
+
+/-- the loop of `cdilate` keeps its iterate between the starting image and `g` -/
+theorem cdilateLoop_bounds (g : Img Int) (hs : ∀ d ∈ g.shape, 0 < d)
+    (hlen : ∀ kh ∈ sup, kh.1.length = g.shape.length) (hg : RangeImg dt g) (n : Nat) (f : Img Int)
+    (hshape : f.shape = g.shape) (hf : RangeImg dt f) (hfg : LeImg f g) :
+    (cdilateLoop dt g sup n f).shape = g.shape ∧
+    LeImg f (cdilateLoop dt g sup n f) ∧ LeImg (cdilateLoop dt g sup n f) g := by
+  induction n generalizing f with
+  | zero => exact ⟨hshape, fun _ _ => Int.le_refl _, hfg⟩
+  | succ n ih =>
+    unfold cdilateLoop
+    simp only []
+    have hsf : ∀ d ∈ f.shape, 0 < d := by rw [hshape]; exact hs
+    have hlenf : ∀ kh ∈ sup, kh.1.length = f.shape.length := by rw [hshape]; exact hlen
+    have hD := range_dilate dt sup sc f hsf hf
+    have hext := self_le_dilate dt sup sc cm f hsf hlenf hf
+    have hget : ∀ j, j < shapeSize f.shape →
+        (map2 min (dilateImg dt f sup) g).data.getD j 0 =
+          min ((dilateImg dt f sup).data.getD j 0) (g.data.getD j 0) :=
+      fun j hj => map2_getD min (dilateImg dt f sup) g j hj
+    have hshape' : (map2 min (dilateImg dt f sup) g).shape = g.shape := hshape
+    have hf' : RangeImg dt (map2 min (dilateImg dt f sup) g) := by
+      intro j hj
+      have hj' : j < shapeSize f.shape := hj
+      rw [hget j hj']
+      have h1 := hD j hj'; have h2 := hg j (by rw [← hshape]; exact hj')
+      unfold DT.InRange at *; omega
+    have hle' : LeImg f (map2 min (dilateImg dt f sup) g) := by
+      intro j hj
+      rw [hget j hj]
+      have h1 := hext j hj; have h2 := hfg j hj
+      omega
+    have hfg' : LeImg (map2 min (dilateImg dt f sup) g) g := by
+      intro j hj
+      have hj' : j < shapeSize f.shape := hj
+      rw [hget j hj']
+      omega
+    split
+    · exact ⟨hshape', hle', hfg'⟩
+    · obtain ⟨h1, h2, h3⟩ := ih _ hshape' hf' hfg'
+      exact ⟨h1, fun j hj => Int.le_trans (hle' j hj) (h2 j hj), h3⟩
+
+/-- `min(f, g) ≤ cdilate(f, g, Bc, n) ≤ g` for every `n` -/
+theorem cdilate_bounds (f g : Img Int) (hshape : g.shape = f.shape) (hs : ∀ d ∈ f.shape, 0 < d)
+    (hlen : ∀ kh ∈ sup, kh.1.length = f.shape.length) (hf : RangeImg dt f) (hg : RangeImg dt g) (n : Nat) :
+    ∀ i, i < shapeSize f.shape →
+      min (f.data.getD i 0) (g.data.getD i 0) ≤ (cdilateModel dt f g sup n).data.getD i 0 ∧
+      (cdilateModel dt f g sup n).data.getD i 0 ≤ g.data.getD i 0 := by
+  have hm : RangeImg dt (map2 min f g) := by
+    intro j hj
+    have hj' : j < shapeSize f.shape := hj
+    rw [map2_getD min f g j hj']
+    have h1 := hf j hj'; have h2 := hg j (by rw [hshape]; exact hj')
+    unfold DT.InRange at *; omega
+  have hmg : LeImg (map2 min f g) g := by
+    intro j hj
+    have hj' : j < shapeSize f.shape := hj
+    rw [map2_getD min f g j hj']; omega
+  obtain ⟨h1, h2, h3⟩ := cdilateLoop_bounds dt sup sc cm g (by rw [hshape]; exact hs)
+    (by rw [hshape]; exact hlen) hg n (map2 min f g) hshape.symm hm hmg
+  intro i hi
+  have := h2 i hi
+  rw [map2_getD min f g i hi] at this
+  exact ⟨this, h3 i (by rw [h1, hshape]; exact hi)⟩
+
+end cond
 
 end Mahotas.C02
